@@ -66,6 +66,10 @@ def jwt_login_required(admin=False, permission: Group | None = None):
         def decorated_function(*args, **kwargs) -> flask.Response:
             if not jwt_current_user.is_authenticated:
                 return jsonify_no_content(401)
+            if jwt_current_user.pk == User.get_guest_user().pk:
+                # the access token any anonymous client can fetch for the
+                # guest account is not a login
+                return jsonify_no_content(401)
             if admin and not jwt_current_user.is_admin:
                 return jsonify_no_content(401)
             if permission and not jwt_current_user.has_permission(permission):
